@@ -6,10 +6,11 @@ import Bermuda.Model.Plot
 import Bermuda.Spec.C20
 import Bermuda.Lemmas.Plot
 import Bermuda.Lemmas.Order
+import Bermuda.Lemmas.Sort
 import Bermuda.Generated.PlotMetrics
 import Mathlib.Tactic.Linarith
 namespace Bermuda.Plot
-open Bermuda Bermuda.Spec.C20 Std
+open Bermuda Bermuda.Spec.C20
 
 theorem all2_map {α β} (f : α → β → Bool) (g : α → β) (l : List α)
     (h : ∀ a ∈ l, f a (g a) = true) : all2 f l (l.map g) = true := by
@@ -489,12 +490,12 @@ def minStep (best : Option Cell) (d : Cell) : Option Cell :=
   | some b => if d.ev < b.ev then some d else some b
 
 theorem date_lt_trans {a b c : Date} (h1 : a < b) (h2 : b < c) : a < c :=
-  TransCmp.lt_trans (cmp := Date.cmp) h1 h2
+  Std.TransCmp.lt_trans (cmp := Date.cmp) h1 h2
 
 theorem date_lt_irrefl (a : Date) : ¬ a < a := by
   intro h
   have : Date.cmp a a = .lt := h
-  rw [ReflCmp.compare_self (cmp := Date.cmp)] at this
+  rw [Std.ReflCmp.compare_self (cmp := Date.cmp)] at this
   cases this
 
 /-- trichotomy in the form needed: not `a < b` means `b < a` or equal -/
@@ -505,7 +506,7 @@ theorem date_not_lt {a b : Date} (h : ¬ a < b) : b < a ∨ a = b := by
   | gt =>
     left
     show Date.cmp b a = .lt
-    rw [OrientedCmp.eq_swap (cmp := Date.cmp), hc]; rfl
+    rw [Std.OrientedCmp.eq_swap (cmp := Date.cmp), hc]; rfl
 
 theorem foldl_minStep_some (l : List Cell) (b : Cell) :
     ∃ m, l.foldl minStep (some b) = some m ∧ m ∈ b :: l ∧ ∀ d ∈ b :: l, ¬ d.ev < m.ev := by
@@ -555,5 +556,250 @@ theorem foldl_minStep_none (l : List Cell) :
     · intro h; cases h
     · intro _
       simpa [List.foldl_cons, minStep] using foldl_minStep_some rest b
+
+/-! ### valid triangles -/
+
+/-- what `build_plot_data` relies on: no two cells share (metadata, period, evaluation date) — the
+summaries live in a dict keyed by the cell — and the value keys of a cell are distinct (a dict) -/
+def ValidT (t : List Cell) : Prop :=
+  t.Pairwise (fun a b => ¬ (rowKey a = rowKey b ∧ a.ev = b.ev)) ∧
+  ∀ c ∈ t, (c.values.map (·.1)).Nodup
+
+theorem pairwise_of_mem {α} {R : α → α → Prop} (hs : ∀ a b, R a b → R b a) {l : List α}
+    (h : l.Pairwise R) {a b : α} (ha : a ∈ l) (hb : b ∈ l) (hne : a ≠ b) : R a b := by
+  induction l with
+  | nil => cases ha
+  | cons x rest ih =>
+    obtain ⟨hx, hrest⟩ := List.pairwise_cons.mp h
+    rcases List.mem_cons.mp ha with rfl | ha'
+    · rcases List.mem_cons.mp hb with rfl | hb'
+      · exact absurd rfl hne
+      · exact hx b hb'
+    · rcases List.mem_cons.mp hb with rfl | hb'
+      · exact hs _ _ (hx a ha')
+      · exact ih hrest ha' hb'
+
+theorem valid_distinct {t : List Cell} (hv : ValidT t) {a b : Cell} (ha : a ∈ t) (hb : b ∈ t)
+    (hk : rowKey a = rowKey b) (he : a.ev = b.ev) : a = b := by
+  by_contra hne
+  exact pairwise_of_mem (R := fun a b => ¬ (rowKey a = rowKey b ∧ a.ev = b.ev))
+    (fun a b h hab => h ⟨hab.1.symm, hab.2.symm⟩) hv.1 ha hb hne ⟨hk, he⟩
+
+theorem valid_nodup {t : List Cell} (hv : ValidT t) : t.Nodup :=
+  hv.1.imp fun h heq => h ⟨by rw [heq], by rw [heq]⟩
+
+theorem evLe_eq : evLe = leOf (cmpOn (fun c : Cell => c.ev) Date.cmp) := rfl
+
+theorem sameSlicePeriod_iff {c d : Cell} : sameSlicePeriod c d = true ↔ rowKey d = rowKey c := by
+  simp only [sameSlicePeriod, rowKey, Bool.and_eq_true, beq_iff_eq, Prod.mk.injEq]
+  constructor
+  · rintro ⟨⟨h1, h2⟩, h3⟩; exact ⟨h1.symm, h2.symm, h3.symm⟩
+  · rintro ⟨h1, h2, h3⟩; exact ⟨⟨h1.symm, h2.symm⟩, h3.symm⟩
+
+theorem mem_row_iff {t : List Cell} {kr : RowKey × List Cell} (hkr : kr ∈ slicePeriodRows t) {d : Cell} :
+    d ∈ kr.2 ↔ d ∈ t ∧ rowKey d = kr.1 := by
+  rw [row_eq hkr, (List.mergeSort_perm _ _).mem_iff, List.mem_filter]
+  simp
+
+/-- rows are strictly increasing in the evaluation date -/
+theorem row_strict {t : List Cell} (hv : ValidT t) {kr : RowKey × List Cell} (hkr : kr ∈ slicePeriodRows t) :
+    kr.2.Pairwise (fun a b => a.ev < b.ev) := by
+  have hsorted : kr.2.Pairwise (fun a b => evLe a b = true) := by
+    rw [row_eq hkr, evLe_eq]
+    exact sorted_mergeSort (cmp := cmpOn (fun c : Cell => c.ev) Date.cmp) _
+  have hnodup : kr.2.Nodup := by
+    rw [row_eq hkr]
+    exact (List.mergeSort_perm _ _).nodup_iff.mpr ((valid_nodup hv).filter _)
+  have := hsorted.and hnodup
+  refine this.imp_of_mem ?_
+  intro a b ha hb hab
+  obtain ⟨hle, hne⟩ := hab
+  have ha' := (mem_row_iff hkr).mp ha
+  have hb' := (mem_row_iff hkr).mp hb
+  cases hc : Date.cmp a.ev b.ev with
+  | lt => exact hc
+  | eq =>
+    exact absurd (valid_distinct hv ha'.1 hb'.1 (ha'.2.trans hb'.2.symm) (Date.cmp_eq_eq.mp hc)) hne
+  | gt => simp [evLe, hc] at hle
+
+/-- the successor handed to a metric is the Spec's "next evaluation of the same slice and period" -/
+theorem successor_eq {t : List Cell} (hv : ValidT t) {kr : RowKey × List Cell}
+    (hkr : kr ∈ slicePeriodRows t) {tr : Cell × Option Cell × Option Cell} (htr : tr ∈ rowTriples kr.2) :
+    tr.2.2 = nextInSlice t tr.1 := by
+  rw [rowTriples_eq] at htr
+  obtain ⟨pre, post, hrow, hn⟩ := mem_triplesAux htr
+  have hstrict := row_strict hv hkr
+  rw [hrow] at hstrict
+  have hc_row : tr.1 ∈ kr.2 := by rw [hrow]; simp
+  have hck := ((mem_row_iff hkr).mp hc_row).2
+  obtain ⟨hpre_pw, hmid⟩ := List.pairwise_append.mp hstrict |>.2
+  have hpost_pw := (List.pairwise_cons.mp hpre_pw).2
+  have hpost_gt : ∀ d ∈ post, tr.1.ev < d.ev := (List.pairwise_cons.mp hpre_pw).1
+  have hpre_lt : ∀ d ∈ pre, d.ev < tr.1.ev := fun d hd => hmid d hd tr.1 (by simp)
+  have mem_cands : ∀ d, d ∈ (t.filter fun d => sameSlicePeriod tr.1 d && decide (tr.1.ev < d.ev)) ↔ d ∈ post := by
+    intro d
+    simp only [List.mem_filter, Bool.and_eq_true, decide_eq_true_eq, sameSlicePeriod_iff]
+    constructor
+    · rintro ⟨hdt, hdk, hlt⟩
+      have hd_row : d ∈ kr.2 := (mem_row_iff hkr).mpr ⟨hdt, hdk.trans hck⟩
+      rw [hrow] at hd_row
+      rcases List.mem_append.mp hd_row with h | h
+      · exact absurd (date_lt_trans hlt (hpre_lt d h)) (date_lt_irrefl _)
+      · rcases List.mem_cons.mp h with rfl | h
+        · exact absurd hlt (date_lt_irrefl _)
+        · exact h
+    · intro hd
+      have hd_row : d ∈ kr.2 := by rw [hrow]; simp [hd]
+      obtain ⟨hdt, hdk⟩ := (mem_row_iff hkr).mp hd_row
+      exact ⟨hdt, hdk.trans hck.symm, hpost_gt d hd⟩
+  rw [hn, nextInSlice_eq]
+  cases hpost : post with
+  | nil =>
+    have : (t.filter fun d => sameSlicePeriod tr.1 d && decide (tr.1.ev < d.ev)) = [] := by
+      apply List.eq_nil_iff_forall_not_mem.mpr
+      intro d hd
+      have := (mem_cands d).mp hd
+      rw [hpost] at this; cases this
+    rw [this]; rfl
+  | cons d0 r =>
+    have hd0 : d0 ∈ (t.filter fun d => sameSlicePeriod tr.1 d && decide (tr.1.ev < d.ev)) :=
+      (mem_cands d0).mpr (by rw [hpost]; simp)
+    obtain ⟨m, hm, hmem, hmin⟩ := (foldl_minStep_none _).2 (List.ne_nil_of_mem hd0)
+    rw [hm]
+    have hmpost := (mem_cands m).mp hmem
+    rw [hpost] at hmpost hpost_pw
+    rcases List.mem_cons.mp hmpost with rfl | hmr
+    · rfl
+    · exact absurd ((List.pairwise_cons.mp hpost_pw).1 m hmr) (hmin d0 hd0)
+
+/-! ### `field_summaries[cell]` is the cell's own entry -/
+
+theorem find_key_of_nodup {α} (d : List (String × α)) (hn : (d.map (·.1)).Nodup) {kv : String × α}
+    (hk : kv ∈ d) : d.find? (fun p => p.1 == kv.1) = some kv := by
+  induction d with
+  | nil => cases hk
+  | cons x rest ih =>
+    simp only [List.map_cons, List.nodup_cons] at hn
+    rcases List.mem_cons.mp hk with rfl | hk'
+    · simp
+    · have : (x.1 == kv.1) = false := by
+        simpa using fun h : x.1 = kv.1 => hn.1 (List.mem_map.mpr ⟨kv, hk', h.symm⟩)
+      simp [this, ih hn.2 hk']
+
+theorem valuesEq_refl (d : Dict Val) (hn : (d.map (·.1)).Nodup) : valuesEq d d = true := by
+  simp only [valuesEq, beq_self_eq_true, Bool.true_and, List.all_eq_true]
+  intro kv hkv
+  simp [Dict.get?, find_key_of_nodup d hn hkv, Val.eqv]
+
+theorem cellEq_refl {c : Cell} (hn : (c.values.map (·.1)).Nodup) : cellEq c c = true := by
+  simp [cellEq, valuesEq_refl c.values hn]
+
+theorem cellEq_coords {a b : Cell} (h : cellEq a b = true) : rowKey a = rowKey b ∧ a.ev = b.ev := by
+  simp only [cellEq, Bool.and_eq_true, beq_iff_eq] at h
+  obtain ⟨⟨⟨⟨⟨h1, h2⟩, h3⟩, h4⟩, _⟩, _⟩ := h
+  exact ⟨by simp [rowKey, h1, h2, h4], h3⟩
+
+/-- every assignment into `field_summaries` -/
+theorem mem_fieldSummaries {ms : List Metric} {t : List Cell} {e : Cell × List (String × Summary)}
+    (he : e ∈ fieldSummaries ms t) :
+    ∃ kr ∈ slicePeriodRows t, ∃ tr ∈ rowTriples kr.2, e = (tr.1, cellSummaries ms tr.1 tr.2.1 tr.2.2) := by
+  unfold fieldSummaries at he
+  obtain ⟨kr, hkr, he⟩ := List.mem_flatMap.mp he
+  obtain ⟨tr, htr, rfl⟩ := List.mem_map.mp he
+  exact ⟨kr, hkr, tr, htr, rfl⟩
+
+theorem neighbours_mem {t : List Cell} {kr : RowKey × List Cell} (hkr : kr ∈ slicePeriodRows t)
+    {tr : Cell × Option Cell × Option Cell} (htr : tr ∈ rowTriples kr.2) : tr.1 ∈ t :=
+  mem_of_mem_slicePeriodRows hkr (mem_zip3 htr).1
+
+theorem own_entry {t : List Cell} (hv : ValidT t) (ms : List Metric) {c : Cell} (hc : c ∈ t) :
+    ∃ p, lookupLast c (fieldSummaries ms t) = cellSummaries ms c p (nextInSlice t c) := by
+  -- the filter is not empty: c sits in its row
+  obtain ⟨kr, hkr, _, hcrow⟩ := row_cover hc
+  have hfst : c ∈ (rowTriples kr.2).map (·.1) := by rw [rowTriples_eq, triplesAux_fst]; exact hcrow
+  obtain ⟨tr, htr, htr1⟩ := List.mem_map.mp hfst
+  have hmem : (tr.1, cellSummaries ms tr.1 tr.2.1 tr.2.2) ∈
+      (fieldSummaries ms t).filter (fun e => cellEq e.1 c) := by
+    apply List.mem_filter.mpr
+    constructor
+    · unfold fieldSummaries
+      exact List.mem_flatMap.mpr ⟨kr, hkr, List.mem_map.mpr ⟨tr, htr, rfl⟩⟩
+    · simp only [htr1]; exact cellEq_refl (hv.2 c hc)
+  unfold lookupLast
+  cases hl : ((fieldSummaries ms t).filter fun e => cellEq e.1 c).getLast? with
+  | none =>
+    rw [List.getLast?_eq_none_iff] at hl
+    rw [hl] at hmem; cases hmem
+  | some e =>
+    have he := List.mem_of_getLast? hl
+    obtain ⟨he1, he2⟩ := List.mem_filter.mp he
+    obtain ⟨kr', hkr', tr', htr', rfl⟩ := mem_fieldSummaries he1
+    have hin := (neighbours_mem hkr' htr')
+    have heq : tr'.1 = c := by
+      obtain ⟨hk, hev⟩ := cellEq_coords he2
+      exact valid_distinct hv hin hc hk hev
+    refine ⟨tr'.2.1, ?_⟩
+    simp only
+    rw [successor_eq hv hkr' htr', heq]
+
+/-! ### the Spec clauses on the model's records -/
+
+abbrev gms := Generated.PlotMetrics.metrics
+
+/-- what a record of the model answers for a table name -/
+theorem record_lookup {t : List Cell} (hv : ValidT t) {c : Cell} (hc : c ∈ t) {e : String × Kind}
+    (he : e ∈ table) :
+    (mkRecord c (lookupLast c (fieldSummaries gms t))).metrics.lookup e.1 =
+      (expected t c e.2).map fieldSummary := by
+  obtain ⟨p, hp⟩ := own_entry hv gms hc
+  simp only [mkRecord, hp]
+  rw [lookup_cellSummaries c p _ he, expected_eq]
+
+theorem valuesOk_model {t : List Cell} (hv : ValidT t) (sel : Kind → Bool) :
+    valuesOk 0 sel t (buildPlotData gms t) = true := by
+  unfold valuesOk buildPlotData
+  apply all2_map
+  intro c hc
+  rw [List.all_eq_true]
+  intro e he
+  have het : e ∈ table := (List.mem_filter.mp he).1
+  rw [record_lookup hv hc het]
+  cases expected t c e.2 with
+  | none => rfl
+  | some mv => exact summaryMatches_self mv
+
+theorem absentOk_model {t : List Cell} (hv : ValidT t) : absentOk t (buildPlotData gms t) = true := by
+  unfold absentOk buildPlotData
+  apply all2_map
+  intro c hc
+  rw [List.all_eq_true]
+  intro e he
+  rw [record_lookup hv hc he]
+  cases expected t c e.2 <;> rfl
+
+theorem cellSummaries_monotone (ms : List Metric) (c : Cell) (p n : Option Cell) :
+    ∀ e ∈ cellSummaries ms c p n, summaryMonotone 0 e.2 = true := by
+  intro e he
+  unfold cellSummaries at he
+  obtain ⟨m, _, hm⟩ := List.mem_filterMap.mp he
+  cases h : safeApplyMetric m c p n with
+  | none => simp [h] at hm
+  | some mv =>
+    simp only [h, Option.map_some, Option.some.injEq] at hm
+    subst hm
+    exact summaryMonotone_self mv
+
+theorem monotoneOk_model (ms : List Metric) (t : List Cell) : monotoneOk 0 (buildPlotData ms t) = true := by
+  unfold monotoneOk buildPlotData
+  simp only [List.all_eq_true, List.mem_map]
+  rintro r ⟨c, _, rfl⟩ e he
+  simp only [mkRecord] at he
+  unfold lookupLast at he
+  split at he
+  · rename_i x hx
+    have hxm := List.mem_of_getLast? hx
+    obtain ⟨kr, _, tr, _, rfl⟩ := mem_fieldSummaries (List.mem_filter.mp hxm).1
+    exact cellSummaries_monotone ms _ _ _ e he
+  · cases he
 
 end Bermuda.Plot
